@@ -196,6 +196,15 @@ def main_check(check_name, tier, replay=None):
         return 1 if res.violations else 0
 
     specs = mod.plan(tier, seed)
+    # A few shards are run a second time with the library's own logging switched to DEBUG (into a null handler): diagnostic
+    # code paths (isEnabledFor-guarded dumps, lazy iterators consumed by a log line) are code of the library like any other.
+    # The copies keep their shard parameters, so they replay the same workload and are judged by the same oracles.
+    if getattr(mod, "VERBOSE_LOGGING_SHARDS", True) and specs:
+        k = 3 if tier == "quick" else 6
+        step = max(1, len(specs) // k)
+        for sp in [dict(s) for s in specs[::step][:k]]:
+            sp["rv_loglevel"] = "DEBUG"
+            specs.append(sp)
     workers = min(len(specs), getattr(mod, "WORKERS", {}).get(tier, 4 if tier == "quick" else 16))
     timeout_s = getattr(mod, "WATCHDOG", {}).get(tier, 600 if tier == "quick" else 3600)
     results, problems = run_shards(check_name, specs, workers, timeout_s)
